@@ -58,6 +58,9 @@ impl Hop {
         match form % 3 {
             1 if from.scheme == self.scheme => format!("//{}{}?{}={}", self.authority(), self.path, self.k, self.v),
             2 if from.scheme == self.scheme && from.authority() == self.authority() => format!("{}?{}={}", self.path, self.k, self.v),
+            // (every other absolute Location carries credentials: they name nothing the next hop
+            //  may put into Host or any other field)
+            _ if form % 2 == 0 => format!("{}://bob:s3cr3t@{}{}?{}={}", self.scheme, self.authority(), self.path, self.k, self.v),
             _ => self.url(),
         }
     }
